@@ -31,6 +31,28 @@ impl IntervalFunction for FixedInterval {
     }
 }
 
+/// Computes `initial * multiplier^attempt`, capped at `max` (or `Duration::MAX`),
+/// without overflowing or panicking for any attempt number.
+fn capped_exponential(
+    initial: Duration,
+    multiplier: f64,
+    attempt: usize,
+    max: Option<Duration>,
+) -> Duration {
+    let cap = max.unwrap_or(Duration::MAX);
+    if initial.is_zero() {
+        return Duration::ZERO;
+    }
+    let exponent = i32::try_from(attempt).unwrap_or(i32::MAX);
+    let secs = initial.as_secs_f64() * multiplier.powi(exponent);
+    // `!(secs < cap)` also catches NaN and infinity
+    if !(secs < cap.as_secs_f64()) {
+        cap
+    } else {
+        Duration::from_secs_f64(secs.max(0.0))
+    }
+}
+
 /// Exponential backoff with configurable multiplier.
 #[derive(Debug, Clone)]
 pub struct ExponentialBackoff {
@@ -64,14 +86,12 @@ impl ExponentialBackoff {
 
 impl IntervalFunction for ExponentialBackoff {
     fn next_interval(&self, attempt: usize) -> Duration {
-        let multiplier = self.multiplier.powi(attempt as i32);
-        let interval = self.initial_interval.mul_f64(multiplier);
-
-        if let Some(max) = self.max_interval {
-            interval.min(max)
-        } else {
-            interval
-        }
+        capped_exponential(
+            self.initial_interval,
+            self.multiplier,
+            attempt,
+            self.max_interval,
+        )
     }
 }
 
@@ -119,20 +139,22 @@ impl ExponentialRandomBackoff {
         let min = duration.as_secs_f64() - delta;
         let max = duration.as_secs_f64() + delta;
         let randomized = rng.random_range(min..=max);
-        Duration::from_secs_f64(randomized.max(0.0))
+        if !(randomized < Duration::MAX.as_secs_f64()) {
+            Duration::MAX
+        } else {
+            Duration::from_secs_f64(randomized.max(0.0))
+        }
     }
 }
 
 impl IntervalFunction for ExponentialRandomBackoff {
     fn next_interval(&self, attempt: usize) -> Duration {
-        let multiplier = self.multiplier.powi(attempt as i32);
-        let interval = self.initial_interval.mul_f64(multiplier);
-
-        let capped = if let Some(max) = self.max_interval {
-            interval.min(max)
-        } else {
-            interval
-        };
+        let capped = capped_exponential(
+            self.initial_interval,
+            self.multiplier,
+            attempt,
+            self.max_interval,
+        );
 
         self.randomize(capped)
     }
